@@ -13,29 +13,45 @@ REQUIRED_BRANCHES = ["leaf", "leaf-all", "leaf-unadorned", "conj", "disjS", "dis
                      # stage of the geo searchers) was ADVANCED, rejected the document its child was advanced to, and
                      # rejected the child's next candidate as well
                      "trace:filt-advance", "trace:filt-advance-target-rejected",
-                     "trace:filt-advance-rejected-then-next-rejected"]
+                     "trace:filt-advance-rejected-then-next-rejected",
+                     # node-level replay (driver): every kind of machine replayed against the real node's calls/answers
+                     "replay", "replay-conj", "replay-disjS", "replay-disjH", "replay-bool", "replay-filt", "replay-phrase",
+                     "replay-min", "replay-none", "replay-leaf-postings", "replay-leaf-postings-advance", "replay-leaf-postings-1hit",
+                     "replay-leaf-unadorned", "replay-leaf-all", "replay-filt-with-spec-predicate",
+                     "replay-filt-advance-rejected-then-next-rejected",
+                     # paths of postingsIterator.Next/Advance taken by the replayed leaves
+                     "leaf-next-falls-through-exhausted-segment", "leaf-advance-jumps-to-later-segment",
+                     "leaf-advance-falls-through-to-next", "leaf-restart", "leaf-restart-unadorned", "leaf-narrowed"]
 ASSUMPTIONS = [
     "a DocumentMatch is its doc number: scores, locations and the match pool do not influence which documents are returned",
     "sort.Sort of the children by Count() only changes the order in which children are asked, never a doc number",
     "container/heap is an abstract priority queue (pop = an entry with the smallest doc number)",
-    "ice segments: a postings iterator enumerates the live postings of its term in increasing order, Advance(n) = first posting >= n not yet passed (validated on every query by the correspondence run)",
+    "ice segments: a per-segment postings iterator enumerates the postings of its term that are not in the segment's deleted set, in increasing local order, forward only (Advance(n) = first posting >= n not yet passed); validated on every traced query: the harness prints what every per-segment iterator really holds and the driver replays every leaf call by call",
+    "offsets of a snapshot are the running sums of its segment sizes, starting at 0 (hypothesis `offsetsOK`/`termOK` of plan_exact_seg / postings_exact): evaluated by the driver on the real Snapshot.offsets / FullSize() of every reader (`bad:assumption-offsets`), together with `the live ids of the snapshot are the live ids of the abstract index` (`bad:assumption-layout`)",
+    "the push-down conjunction optimisation (index/optimize.go optimizeConjunction: the term searchers of an all-term conjunction share the AND of their bitmaps) is NOT in the proved model; validated on the real per-segment contents of every traced conjunction: a narrowed leaf still holds every document common to all participants and occurs only as a participant of a conjunction",
+    "sort.Search is modelled by its loop (goSearchLoop) and proved to return the first index at which a monotone predicate holds",
     "vellum: the dictionary iterator enumerates exactly the terms in [start,end) accepted by the automaton when start < end (for start >= end it is observed to yield the key `end`: modelled, see termrange_inverted_witness); regexp / Levenshtein automata are validated per query against Go regexp and a direct Damerau-Levenshtein distance",
     "numeric/date ranges: C10's decomposition covers exactly the values in range (C10); geo: point-in-box / haversine evaluated in IEEE double by the driver, points within relative 1e-3 of an edge are classified `na`",
     "the analysed form of a text field is its list of space-separated lowercase words (checked on every document against the real standard analyzer: `bad-analysis`)",
 ]
 TRUSTED = [
-    "hand-written model Bluge.Search / Bluge.C07.Query tied by the correspondence stream `search` (go/harness/c07): id lists of AllMatches, TopN and TopN+SetScore(none) against the transcribed searcher state machines and against `denote`",
+    "hand-written model Bluge.Search / Bluge.C07.Postings / Bluge.C07.Query tied by the correspondence stream `search` (go/harness/c07): id lists of AllMatches, TopN and TopN+SetScore(none) against the transcribed searcher state machines (leaves = the per-segment postings iterator machines over the REAL snapshot layout) and against `denote`; and by the node-level replay: the real searcher tree of every query is rebuilt, every node wrapped in a logging search.Searcher (reflection on unexported fields of package searcher/index), and each node's recorded call sequence is replayed on the corresponding transcribed machine, answers compared call by call",
+    "go/extract/c07.go (Gen): 15 facts (DisjunctionHeapTakeover, DisjunctionMaxClauseCount, the slice/heap switch, the guards of the two unadorned rewrites and the minSearcher wrap, tooManyClauses, the phrase slop test, the FilteringSearcher.Advance fallback, the postings restart guard, the sort.Search predicate) with one `decide` obligation each",
 ]
-LEVEL_TEXT = ("Lean 4 theorems about the transcribed searcher state machines: ConjunctionSearcher, DisjunctionSliceSearcher, "
-              "DisjunctionHeapSearcher, BooleanSearcher, FilteringSearcher, PhraseSearcher cursor and the postings leaf are sorted-list iterators over the "
+LEVEL_TEXT = ("Lean 4 theorems about the transcribed searcher state machines: the multi-segment postingsIterator / postingsIteratorAll "
+              "(Next over exhausted segments, Advance through sort.Search over the offsets, restart on a backward seek, the unadorned bitmap / 1-hit "
+              "iterators) is a sorted-list iterator over exactly {offset_i + n | n in postings_i, n not deleted_i}; ConjunctionSearcher, "
+              "DisjunctionSliceSearcher, DisjunctionHeapSearcher, BooleanSearcher, FilteringSearcher, PhraseSearcher are sorted-list iterators over the "
               "corresponding set expression for children that are iterators (any state reachable by the calls the Go callers make), "
-              "hence searcher trees of any depth; the plan query.go builds denotes `denote`; the model is tied to /repo by a "
-              "differential correspondence run over generated multi-segment corpora and query trees")
-LEVEL_NOTE = ("C07_exact_partial: any depth and width, phrase excluded from the spec-level theorem (plan_exact covers the phrase "
-              "cursor; the position test findPhrasePaths is modelled and validated by the correspondence run); the per-segment "
-              "postings iterator, numeric term expansion (C10) and the geo cell descent are abstracted and validated by the "
-              "correspondence run only; five deviations of the pinned tree from the documented meaning are reported as findings. "
-              "Trusted: Lean kernel, the model, the harness and its generators, ice/vellum/roaring as assumed")
+              "hence searcher trees of any depth over those leaves (plan_exact_seg, C07_exact_seg_partial); findPhrasePaths finds a path iff the declarative "
+              "phrase match with slop holds; the plan query.go builds denotes `denote`; Gen facts for the constants and one-token guards; the model is tied "
+              "to /repo by a differential correspondence run over generated multi-segment corpora and query trees, at the level of id lists AND node by node")
+LEVEL_NOTE = ("C07_exact_seg_partial: any depth and width over the multi-segment leaf machines; phrase: `sat` of a phrase query is proved equal to "
+              "the declarative PhraseMatch (findPhrasePaths_sound_complete, phrase_sat_iff_match); not in the proved model and validated by the "
+              "correspondence run only: the push-down conjunction optimisation (shared AND'ed bitmaps), the numeric term expansion (C10), the geo cell "
+              "descent, the recycling pool of postings iterators (C04); five deviations of the pinned tree from the documented meaning were reported "
+              "and repaired. Trusted: Lean kernel, the model, the harness (incl. its reflection-based tracing) and its generators, the extractor, "
+              "ice/vellum/roaring as assumed")
 TECHNIQUE = "Lean 4 proof (iterator contract, structural induction over searcher trees) + differential correspondence run against the real Reader.Search"
 
 _SIGS = [
